@@ -5,6 +5,7 @@ import (
 	"encoding/binary"
 	"fmt"
 	"iter"
+	"sync"
 	"testing"
 
 	"github.com/jwhited/corebgp"
@@ -362,6 +363,58 @@ func c15MPProp(c c15MP) hx.Verdict {
 	return v
 }
 
+// c15Conc: several values are encoded and decoded at the same time, each by a goroutine
+// of its own, over and over (corebgp itself does that: one FSM goroutine per connection).
+// Every single round trip must come out as it does alone.
+type c15Conc struct {
+	Notifs []c15Notif `json:"notifs,omitempty"`
+	Opens  []c15Open  `json:"opens,omitempty"`
+	Reps   int        `json:"reps"`
+}
+
+func c15ConcProp(c c15Conc) hx.Verdict {
+	v := hx.Verdict{Class: fmt.Sprintf("notifs=%d/opens=%d", len(c.Notifs), len(c.Opens))}
+	if len(c.Notifs)+len(c.Opens) >= 2 {
+		sig := ""
+		for _, n := range c.Notifs {
+			sig += fmt.Sprintf("n%d.%d.%d,", n.Code, n.Sub, len(n.Data))
+		}
+		for _, o := range c.Opens {
+			sig += "o" + h64(o.Open.Body()) + ","
+		}
+		v.NT = sig
+	}
+	devs := make([]*hx.Dev, len(c.Notifs)+len(c.Opens))
+	var wg sync.WaitGroup
+	run := func(i int, one func() *hx.Dev) {
+		wg.Add(1)
+		go func() {
+			defer wg.Done()
+			for k := 0; k < c.Reps; k++ {
+				if d := one(); d != nil {
+					devs[i] = d
+					return
+				}
+			}
+		}()
+	}
+	for i, n := range c.Notifs {
+		run(i, func() *hx.Dev { return c15NotifProp(n).Dev })
+	}
+	for i, o := range c.Opens {
+		run(len(c.Notifs)+i, func() *hx.Dev { return c15OpenProp(o).Dev })
+	}
+	wg.Wait()
+	for _, d := range devs {
+		if d != nil {
+			d.Msg = fmt.Sprintf("with %d values going through the codecs concurrently: %s", len(devs), d.Msg)
+			v.Dev = d
+			break
+		}
+	}
+	return v
+}
+
 func TestC15(t *testing.T) {
 	r := hx.Start(t, "C15")
 	defer r.Finish(t)
@@ -409,6 +462,18 @@ func TestC15(t *testing.T) {
 	}, c15OpenProp)
 
 	hx.Rapid(r, t, "open_bytes", r.N(40000, 400000), genOpenBytes, c15OpenBytesProp)
+
+	hx.Rapid(r, t, "concurrent_codecs", r.N(300, 3000), func(rt *rapid.T) c15Conc {
+		c := c15Conc{Reps: 60}
+		for i, n := 0, rapid.IntRange(1, 4).Draw(rt, "nnotifs"); i < n; i++ {
+			l := pick(rt, "len", 0, 1, 2, 21, 255, rapid.IntRange(0, 600).Draw(rt, "lenr"))
+			c.Notifs = append(c.Notifs, c15Notif{Code: rapid.Byte().Draw(rt, "code"), Sub: rapid.Byte().Draw(rt, "sub"), Data: genBytesN(rt, "data", l)})
+		}
+		for i, n := 0, rapid.IntRange(1, 4).Draw(rt, "nopens"); i < n; i++ {
+			c.Opens = append(c.Opens, c15Open{Open: genOpenValue(rt)})
+		}
+		return c
+	}, c15ConcProp)
 
 	// add-path: every raw length 0..260 x every Send/Receive octet at one position
 	hx.Enum(r, t, "addpath_len_x_octet", 261*256, iter.Seq[c15AddPath](func(yield func(c15AddPath) bool) {
